@@ -28,8 +28,9 @@ RULE = (
     "stalls and optional reload; distinct = scenario digest; non-trivial = at least 3 denoted instants fired"
 )
 ASSUMPTIONS = [
-    "the successor function timer_trigger_next is a pure function; it is exercised only along the 'now' values the "
-    "simulated triggers visit (plus each run's start instant) - not over 'all current times'",
+    "the successor function timer_trigger_next is a pure function; besides the 'now' values the simulated triggers "
+    "visit it is probed directly (a differential check riding on the scenario, not a simulation result) at 'now' "
+    "values exactly on denoted instants, 1 us either side and at random times, on non-DST days only",
     "wall-clock labels inside a DST gap/fold hour are don't-care; for period() across a DST change only absolute "
     "spacing is required (the naive label is don't-care); cron and once follow the local wall clock",
     "once(<weekday> ..): only the first occurrence after start is required (the docs say 'once on that day of the "
@@ -41,7 +42,7 @@ TIERS = {
     "quick": {"runs": 2200, "chunk": 70},
     "thorough": {"runs": 40000, "chunk": 200},
 }
-REACH_PROBES = ["dst_day_crossed", "early_wakeup_rewait", "two_specs_one_decorator", "startup_fired", "shutdown_fired",
+REACH_PROBES = ["successor_probe", "dst_day_crossed", "early_wakeup_rewait", "two_specs_one_decorator", "startup_fired", "shutdown_fired",
                 "reload_mid_run", "stall_past_instant", "cron_step_or_range", "period_with_end", "sub_second_start",
                 "sunrise_or_sunset", "weekly_or_yearly"]
 SHRINK_LISTS = [["ops"], ["spec", "funcs"], ["spec", "funcs", "*", "specs"]]
@@ -266,10 +267,60 @@ def run(scn: dict) -> dict:
             await w.sleep(end - w.loop.vt)
         await w.drain()
         info["end"] = w.loop.vt
+        if not spec["dst"]:
+            info["successor"] = await successor_probes(w, scn)
 
     w.run(driver)
     violations, nontrivial, extra = oracle(w, scn, info)
     return base_result(w, violations, nontrivial, extra)
+
+
+async def successor_probes(w: World, scn: dict) -> list:
+    """Differential probes of the pure successor function TrigTime.timer_trigger_next, riding on the scenario.
+
+    (Not a simulation result: the function is called directly, at 'now' values placed exactly on denoted
+    instants and 1 us either side, where the running triggers rarely land.)"""
+    from custom_components.pyscript.trigger import TrigTime
+
+    out = []
+    sun = _sun_factory(w, w.cfg["tz"])
+    rng = random.Random(scn["cfg"]["env_seed"])
+    startup = w.clock.local_naive().replace(microsecond=250000) - dt.timedelta(days=1)
+    horizon = startup + dt.timedelta(seconds=min(scn["spec"]["window"] * 2 + 3600, 5 * 86400))
+    for func in scn["spec"]["funcs"]:
+        specs = [sp for sp in func["specs"] if not (
+            (sp["type"] == "once" and sp["at"]["date"]["k"] in ("dow", "md"))
+            or (sp["type"] == "once" and sp["at"]["time"]["k"] in ("sunrise", "sunset"))
+            or (sp["type"] == "period" and sp["start"]["date"]["k"] == "none" and sp.get("end") is not None))]
+        if not specs or len(specs) != len(func["specs"]):
+            continue
+        denoted = set()
+        for sp in specs:
+            if sp["type"] == "once":
+                denoted.update(C.once_instants(sp["at"], startup, startup, horizon, sun))
+            elif sp["type"] == "cron":
+                denoted.update(C.cron_instants(sp["expr"], startup, horizon))
+            else:
+                denoted.update(C.period_instants(sp, startup, startup, horizon, sun))
+        denoted = sorted(denoted)
+        if len(denoted) < 2:
+            continue
+        nows = []
+        for inst in rng.sample(denoted[:-1], min(5, len(denoted) - 1)):
+            nows += [inst - dt.timedelta(microseconds=1), inst, inst + dt.timedelta(microseconds=1)]
+        for _ in range(3):
+            nows.append(startup + dt.timedelta(seconds=rng.uniform(1, (denoted[-1] - startup).total_seconds() - 1)))
+        srcs = [C.spec_src(sp) for sp in specs]
+        for now in nows:
+            if now <= startup or now >= denoted[-1]:
+                continue
+            want = next(d for d in denoted if d > now)
+            got, _adj = await TrigTime.timer_trigger_next(list(srcs), now, startup)
+            w.probe("successor_probe")
+            if got is None or abs((got - want).total_seconds()) > 1e-5:
+                out.append({"specs": srcs, "now": str(now), "startup": str(startup), "got": str(got), "want": str(want),
+                            "on_instant": now in denoted})
+    return out
 
 
 def _sun_factory(w: World, tzname: str):
@@ -487,6 +538,10 @@ def oracle(w: World, scn: dict, info: dict):
                     viol("C06.missed_instant", msig,
                          f"{desc}: no run at the denoted instant {inst} (runs near it: {near}; all runs "
                          f"{[str(m['raw_kw']['trigger_time']) for m in timed][:12]})", vt - clock.vt0)
+    for bad in info.get("successor") or []:
+        viol("C06.successor_function", {"on_instant": bad["on_instant"]},
+             f"timer_trigger_next({bad['specs']}, now={bad['now']}, startup={bad['startup']}) = {bad['got']}, the earliest "
+             f"denoted instant strictly after now is {bad['want']}")
     if w.cfg["drift"] < 0:
         w.probe("early_wakeup_rewait")
     frac = dt.datetime.fromisoformat(w.cfg["epoch_utc"]).microsecond
